@@ -189,7 +189,8 @@ func Gen(prop, tier string, seed uint64) *kernel.Plan {
 	}
 	if prop == "C12" {
 		wPar = 20
-		wRogue = 5 // a request that makes its handler fail, among the honest traffic: everybody else still gets an answer
+		// no rogue requests here: a handler that panics and recovers makes the race-detector build of the
+		// Go runtime fall over now and then (DESIGN 10-27); misbehaving requests are C16's business
 	}
 	if prop == "C11" {
 		wPar = 6
